@@ -155,7 +155,13 @@ func (m *M) binop(op token.Token, xv, yv Value, xt, yt types.Type, rt types.Type
 				if signed {
 					return smt.BVSRem(x, y)
 				}
-				return smt.BVURem(x, y)
+				r := smt.BVURem(x, y)
+				if !y.IsConst() {
+					// valid lemma (y != 0 on this path): x mod y < y. Spares the solver the divider circuit
+					// for range obligations.
+					m.st.PC = append(m.st.PC, smt.BVUlt(r, y))
+				}
+				return r
 			case token.AND:
 				return smt.BVAnd(x, y)
 			case token.OR:
